@@ -6,7 +6,7 @@
    the rule's violating set in terms of the import relation and D(.) only.
    The English rendering of a line is modelled, not verified (DESIGN 5/C03). *)
 From Coq Require Import List Bool NArith.
-From PTA Require Import Names Graph Search Rule SpecRule SpecLines NamesProofs SearchProofs RuleProofs.
+From PTA Require Import Names Graph Search Rule SpecRule SpecLines NamesProofs SearchProofs RuleProofs AlgebraProofs AliasProofs.
 Import ListNotations.
 
 (* every reported line belongs to the violating set *)
@@ -41,6 +41,18 @@ Theorem C03_nothing_unrelated :
   exists S, In S Ss /\ inD ceqb S x = true.
 Proof. exact @strict_report_about_subject. Qed.
 Print Assumptions C03_nothing_unrelated.
+
+(* the aliases ('should not import anything' / 'should not be imported by anything', pairwise unrelated subjects):
+   the report lists exactly the imports between a module of a subject and something outside every subject *)
+Theorem C03_alias_report :
+  forall (comp : Type) (ceqb : comp -> comp -> bool),
+  (forall x y, reflect (x = y) (ceqb x y)) ->
+  forall (rmatch : N -> list comp -> bool) g imp (ss : list (@filt comp)) l,
+  wf_graph g -> (forall f, In f ss -> exists_f ceqb g f = true) -> pw_unrel ceqb (map fid ss) -> ss <> [] ->
+  (In l (lines_of (verdict ceqb rmatch g (any_cfg imp (map (@to_u comp) ss)))) <->
+   exists S e, In S ss /\ In e (imps g) /\ is_other ceqb imp S ss (orient imp e) = true /\ l = conc imp e).
+Proof. exact @alias_report. Qed.
+Print Assumptions C03_alias_report.
 
 (* non-vacuity: the D1 shape z -> y -> a; "a should not be imported by modules except b"
    reports exactly  a is imported by y  and nothing about z *)
